@@ -278,8 +278,24 @@ func (r *ref) onInterest(in *inst, o *iOp, nonce uint32, life time.Duration, tok
 		r.gc(k)
 		return
 	}
-	e := r.pend[k]
 	ir := implRec(in.dump, k, o.face)
+	if r.cache && ir == nil && scopeOf(o.face) == defn.NonLocal {
+		// A cached /localhost Data matches the Interest of a non-local face (only "/" with
+		// CanBePrefix can do that): "scope rules permitting" withholds the copy. Whether the Interest
+		// then counts as answered (consumed, like a pending Interest whose copy a scope rule withholds
+		// when the Data arrives) or stays pending is not fixed by the text. Adopt.
+		for n := range r.csWires {
+			if isLocalhostStr(n) && nameMatch(k, n) {
+				stats["interest arrivals whose cache answer a scope rule withholds: consumed (adopted)"]++
+				if e := r.pend[k]; e != nil {
+					delete(e.recs, o.face)
+				}
+				r.gc(k)
+				return
+			}
+		}
+	}
+	e := r.pend[k]
 	accepted := true
 	if seenBefore {
 		// An Interest repeating a (name, nonce) seen before may be a loop / dead nonce: whether it
@@ -459,8 +475,13 @@ func (r *ref) onData(in *inst, face uint64, name string, tok []byte, wire []byte
 			cands = append(cands, c)
 		}
 	}
-	if th, t, ok := fwsim.IssuedToken(tok); ok {
-		_ = th
+	if th, t, ok := fwsim.IssuedToken(tok); ok && int(th) != in.sim.ThreadID() {
+		// six bytes, i.e. this forwarder's format, but not a token this forwarder (this thread)
+		// attached to anything, whatever the last four bytes are: it echoes nothing, and the name
+		// rule is reserved for Data that "carries no token in this forwarder's format"
+		tokClass = "6-byte token naming another thread"
+		_ = t
+	} else if ok {
 		tokClass = "token-addressed"
 		// every pending Interest that was forwarded carrying this token (one entry in a correct
 		// forwarder)
@@ -478,7 +499,11 @@ func (r *ref) onData(in *inst, face uint64, name string, tok []byte, wire []byte
 		}
 	} else {
 		if len(tok) > 0 {
-			tokClass = fmt.Sprintf("%d-byte token (not this forwarder's format)", len(tok))
+			// (the exact bytes are in the detail; the class keeps one root cause under few keys)
+			tokClass = "token shorter than 6 bytes (not this forwarder's format)"
+			if len(tok) > 6 {
+				tokClass = "token longer than 6 bytes (not this forwarder's format)"
+			}
 		}
 		for k, e := range r.pend {
 			if nameMatch(k, name) {
